@@ -12,7 +12,7 @@ mf=()
 if [ "$VERIF_REPO" != /repo ]; then
   # private modfile so that several trees can be checked side by side
   tag="$(echo "$VERIF_REPO" | md5sum | cut -c1-8)"
-  sed "s#=> /repo#=> $VERIF_REPO#" go.mod > "bin/go.$tag.mod"
+  sed -e "s#=> /repo#=> $VERIF_REPO#" -e "s#=> ./drivers/#=> $PWD/drivers/#" go.mod > "bin/go.$tag.mod"
   cp "$VERIF_REPO/go.sum" "bin/go.$tag.sum"
   mf=(-modfile="$PWD/bin/go.$tag.mod")
   out="bin/$lc.$tag"
@@ -32,7 +32,9 @@ if [ -f "cmd/$lc/mapseam.patterns" ]; then
   go build "${mf[@]}" -o bin/mapseam ./cmd/mapseam || { echo "ERROR mapseam does not build" >&2; exit 2; }
   msd="$PWD/bin/$lc.mapseam.${tag:-main}"
   rm -rf "$msd"
-  if ! bin/mapseam "$VERIF_REPO" "$msd" $(cat "cmd/$lc/mapseam.patterns") > "bin/$lc.mapseam.log" 2>&1; then
+  shimflag=()
+  [ -f "cmd/$lc/syncshim.files" ] && shimflag=("-syncshim=$(tr '\n' ',' < "cmd/$lc/syncshim.files" | sed 's/,$//')")
+  if ! bin/mapseam "${shimflag[@]}" "$VERIF_REPO" "$msd" $(cat "cmd/$lc/mapseam.patterns") > "bin/$lc.mapseam.log" 2>&1; then
     cat "bin/$lc.mapseam.log" >&2
     echo "ERROR property=$id map-order seam cannot be applied to $VERIF_REPO" >&2
     exit 2
@@ -48,6 +50,7 @@ if [ -d "cmd/$lc/overlay" ]; then
 fi
 if [ "$(jq '.Replace|length' "$oj")" != 0 ]; then
   ov=(-overlay "$PWD/$oj")
+  export VERIF_OVERLAY="$PWD/$oj"
 fi
 if ! go build "${mf[@]}" "${ov[@]}" -o "$out" "./cmd/$lc" 2> "bin/$lc.build.err"; then
   cat "bin/$lc.build.err" >&2
